@@ -390,11 +390,14 @@ func (gw guardedWriter[T]) Write(v T) {
 
 type onceChan struct {
 	channel chan any
-	wrote   int32
 }
 
+// write keeps the first value: the channel has one slot, later values are dropped.
+// Claiming the slot and filling it is one step, so a reader that finds the channel
+// empty knows that no panic has been reported yet.
 func (oc *onceChan) write(val any) {
-	if atomic.CompareAndSwapInt32(&oc.wrote, 0, 1) {
-		oc.channel <- val
+	select {
+	case oc.channel <- val:
+	default:
 	}
 }
